@@ -11,11 +11,23 @@
     products with A per column <= m + 1 (counting operator), several columns at once vs the per-column optima.
     A failing iterate is classified against TLC's exact Galerkin iterate (attribute `iterate`).
 (3) Seeded larger systems (n <= 150) against a dense least-squares oracle over an orthonormal Krylov basis built
-    in the harness (projection predicate, stated in the assumptions)."""
+    in the harness (projection predicate, stated in the assumptions).
+(4) Badly scaled but exactly representable systems (diagonal / triangular / companion-like, n <= 4, entries powers of
+    ten / two up to 10^7, cond(A) = 10^2 .. 10^7): TLC evaluates the exact rho2_m and x_m for every m with the wide
+    integers of spec/LeastSquares.tla (the values do not fit 32 bits) and checks the same facts on them (rho2_m = 0
+    <=> m >= Krylov dimension, monotone, optimality certificate).  cola runs in float64 (every case) and float32
+    (cond <= 2*10^4) with a tolerance below the precision; the exact residual of the returned iterate (rational
+    arithmetic) must satisfy the bound of a backward-stable least-squares solve,
+        ||b - A x_m|| <= rho_m + SCALED_C * eps(dtype) * cond(A) * max(||b||, ||r0||),
+    not an absolute bound that would hide a squared condition number.
+(5) Larger ill-conditioned systems (n <= 60, prescribed singular values, cond 10^4 .. 10^7 in float64, 10^2 .. 10^3 in
+    float32) run to m >= n: residual <= ILLCOND_C * eps * cond * ||r0|| (projection predicate, see the assumptions)."""
 import json
+import math
 import os
 import time
 import warnings
+from fractions import Fraction
 
 for _v in ("OMP_NUM_THREADS", "OPENBLAS_NUM_THREADS", "MKL_NUM_THREADS"):   # 16 forked workers: one BLAS thread each
     os.environ.setdefault(_v, "1")
@@ -27,6 +39,13 @@ from ..common import Violation  # noqa: E402
 
 PROP = "C13"
 TOLS = (1e-7, 1e-10)
+# Backward-stable bound for the badly scaled catalog and the ill-conditioned numeric family: the measured excess
+# (||b - A x|| - rho_m) / (eps * cond(A) * max(||b||, ||r0||)) of the unchanged tree and of a normal-equations solve of
+# the Hessenberg problem (seeded change C13_B) are recorded next to the definitions below.
+SCALED_C = 32.0
+ILLCOND_C = 32.0
+DTYPES = {"f64": (np.float64, 1e-14), "f32": (np.float32, 1e-7)}      # dtype, solver tolerance (below the precision)
+F32_MAX_COND = 2e4
 
 
 def _np(m):
@@ -431,6 +450,266 @@ def observe_random(arg):
     return viol, n_eval, n_skip
 
 
+# ------------------------------------------------------------------ badly scaled catalog (TLC wide integers)
+def _excess_bucket(ratio):
+    return "<1e2" if ratio < 1e2 else ("1e2..1e4" if ratio < 1e4 else ">=1e4")
+
+
+def wide_arrays(job):
+    A = np.array([[x[0] for x in row] for row in job["A"]["e"]], dtype=object)
+    b = [row[0][0] for row in job["b"]["e"]]
+    x0 = [row[0][0] for row in job["x0"]["e"]]
+    return A, b, x0
+
+
+def exact_residual(Aint, bint, x):
+    """||b - A x||_2 of a floating-point vector x, evaluated in rational arithmetic (no rounding before the final sqrt)."""
+    xs = [Fraction(float(t)) for t in x]
+    n = len(bint)
+    r2 = Fraction(0)
+    for i in range(n):
+        t = Fraction(bint[i]) - sum(Fraction(int(Aint[i][k])) * xs[k] for k in range(n))
+        r2 += t * t
+    return math.sqrt(float(r2))
+
+
+def wide_expected(rec):
+    """TLC's exact values (decoded wide integers) -> floats: rho_m and x_m."""
+    rho = math.sqrt(float(Fraction(rec["n2"], rec["d2"])))
+    xs = np.array([float(Fraction(t, rec["xd"])) for t in rec["xn"]])
+    return rho, xs
+
+
+def wide_attrs(job, dt, m, api, tol, columns=1, batch="single"):
+    return {"source": "scaled", "template": job["template"], "scale": job["scale"], "n": job["n"], "dtype": dt, "m": m,
+            "kdim": job["kdim"], "regime": regime_of(m, job["kdim"], job["n"]), "api": api, "tol": tol,
+            "x0": job["x0name"], "normal": job["normal"], "columns": columns, "batch": batch,
+            "cond_decade": int(round(math.log10(job["cond"]))),
+            "early_breakdown": 1 <= job["kdim"] < min(m, job["n"])}
+
+
+def wide_judge(x, Aint, bint, rho, rho0, slack):
+    """Returns (list of (clause, detail, extra attrs), exact residual norm | None, excess in units of eps*cond*scale)."""
+    n = len(bint)
+    if x.shape != (n, ):
+        return [("shape", f"solution has shape {x.shape}, right-hand side ({n},)", {})], None, None
+    if not np.all(np.isfinite(x)):
+        return [("nonfinite", "solution contains NaN/Inf", {"iterate": "nonfinite"})], None, None
+    res = exact_residual(Aint, bint, x)
+    unit = slack / SCALED_C
+    ratio = (res - rho) / unit
+    out = []
+    if res > rho + slack:
+        out.append(("residual", f"||b - A x|| = {res:.6g} (exact arithmetic), exact minimum over the Krylov space rho_m = {rho:.6g}: "
+                    f"excess {ratio:.3g} * eps*cond(A)*max(|b|,|r0|), allowed {SCALED_C:g}",
+                    {"iterate": "other", "excess": _excess_bucket(ratio)}))
+    if res > rho0 + slack:
+        out.append(("initial_residual", f"||b - A x|| = {res:.6g} exceeds the initial ||b - A x0|| = {rho0:.6g}",
+                    {"iterate": "other", "excess": _excess_bucket(ratio)}))
+    return out, res, ratio
+
+
+def wide_dtypes(job):
+    return ["f64"] + (["f32"] if job["cond"] <= F32_MAX_COND else [])
+
+
+def _wide_core(job):
+    return {k: job[k] for k in ("id", "mat", "template", "scale", "A", "b", "x0", "n", "kdim", "normal", "x0name", "cond",
+                                "rho2_0")}
+
+
+def observe_wide(job, only=None):
+    """One badly scaled system: both entry points, every m in 1..n+2, float64 (+ float32 for moderate condition numbers).
+    Returns (violations, calls, {dtype: largest excess observed})."""
+    Aint, bint, x0int = wide_arrays(job)
+    n = job["n"]
+    viol, n_eval, worst = [], 0, {}
+    rho0 = math.sqrt(job["rho2_0"])
+    for dt in wide_dtypes(job):
+        npdt, tol = DTYPES[dt]
+        A = np.array(Aint, dtype=np.float64).astype(npdt)
+        b = np.array(bint, dtype=npdt)
+        x0 = np.array(x0int, dtype=npdt)
+        slack = SCALED_C * float(np.finfo(npdt).eps) * job["cond"] * max(float(np.linalg.norm(np.array(bint, dtype=float))), rho0)
+        for api in ("gmres", "inv"):
+            prev = None
+            for m in range(1, n + 3):
+                if only is not None and ((dt, api) != tuple(only[:2]) or m not in only[2]):
+                    prev = None
+                    continue
+                if m == 1:
+                    prev = rho0
+                rec = job["per_m"][str(m)]
+                rho, _ = wide_expected(rec)
+                at = wide_attrs(job, dt, m, api, tol)
+                case = f"{job['id']} {dt} m={m} {api} tol={tol:g}"
+                rp = {"wide_job": dict(_wide_core(job), per_m={str(k): job["per_m"][str(k)] for k in {max(m - 1, 1), m}}),
+                      "m": m, "api": api, "dtype": dt}
+                n_eval += 1
+                x0_arg = None if (job["x0name"] == "0" and api == "inv") else x0
+                try:
+                    x, cols = call(api, A, b, x0_arg, m, tol, "column")
+                except Exception as e:  # noqa: BLE001
+                    viol.append(Violation(PROP, "exception", case, dict(at, iterate="n/a", **common.exc_info(e)),
+                                          f"{type(e).__name__}: {str(e)[:120]}", replay=rp))
+                    prev = None
+                    continue
+                found, res, ratio = wide_judge(x, Aint, bint, rho, rho0, slack)
+                for clause, detail, extra in found:
+                    viol.append(Violation(PROP, clause, case, dict(at, **extra), detail, replay=rp))
+                if ratio is not None:
+                    worst[dt] = max(worst.get(dt, 0.0), ratio)
+                if res is not None and prev is not None and res > prev + slack:
+                    viol.append(Violation(PROP, "monotone", case, dict(at, iterate="other"),
+                                          f"||b - A x_m|| = {res:.6g} > {prev:.6g} = ||b - A x_(m-1)|| (+ {slack:.3g})",
+                                          replay=dict(rp, monotone=True)))
+                if cols > m + 1 and x.shape == b.shape:
+                    viol.append(Violation(PROP, "products", case, dict(at, iterate="n/a", products=cols),
+                                          f"{cols} products with A for one column and max_iters={m}", replay=rp))
+                prev = res
+    return viol, n_eval, worst
+
+
+def observe_wide_multi(mj, only=None):
+    """All right-hand sides of one badly scaled matrix at once (x0 = 0): every column against its own TLC optimum."""
+    cols = mj["cols"]
+    n, k = cols[0]["n"], len(cols)
+    Aint = wide_arrays(cols[0])[0]
+    viol, n_eval, worst = [], 0, {}
+    for dt in wide_dtypes(cols[0]):
+        npdt, tol = DTYPES[dt]
+        A = np.array(Aint, dtype=np.float64).astype(npdt)
+        B = np.stack([np.array(wide_arrays(c)[1], dtype=npdt) for c in cols], 1)
+        for api in ("gmres", "inv"):
+            for m in sorted({1, n - 1, n, n + 2} - {0}):
+                if only is not None and (dt, api, m) != only:
+                    continue
+                n_eval += 1
+                case = f"{mj['mat']} [{k} columns] {dt} m={m} {api}"
+                rp = {"wide_multi": {"mat": mj["mat"], "cols": [dict(_wide_core(c), per_m={str(m): c["per_m"][str(m)]}) for c in cols]},
+                      "m": m, "api": api, "dtype": dt}
+                at0 = dict(wide_attrs(cols[0], dt, m, api, tol, columns=k, batch="mixed"), x0="0", regime="mixed",
+                           kdims=sorted({c["kdim"] for c in cols}))
+                try:
+                    X, used = call(api, A, B, None, m, tol)
+                except Exception as e:  # noqa: BLE001
+                    viol.append(Violation(PROP, "exception", case, dict(at0, iterate="n/a", **common.exc_info(e)),
+                                          f"{type(e).__name__}: {str(e)[:120]}", replay=rp))
+                    continue
+                if X.shape != B.shape:
+                    viol.append(Violation(PROP, "shape", case, at0, f"solution shape {X.shape} for B {B.shape}", replay=rp))
+                    continue
+                for j, c in enumerate(cols):
+                    _, bint, _ = wide_arrays(c)
+                    rho, _ = wide_expected(c["per_m"][str(m)])
+                    rho0 = math.sqrt(c["rho2_0"])
+                    slack = SCALED_C * float(np.finfo(npdt).eps) * c["cond"] * rho0
+                    found, _, ratio = wide_judge(X[:, j], Aint, bint, rho, rho0, slack)
+                    at = dict(at0, regime=regime_of(m, c["kdim"], n), kdim=c["kdim"], column=j)
+                    for clause, detail, extra in found:
+                        viol.append(Violation(PROP, clause, case + f" column {j} ({c['id']})", dict(at, **extra), detail,
+                                              replay=dict(rp, column=j)))
+                    if ratio is not None:
+                        worst[dt] = max(worst.get(dt, 0.0), ratio)
+                if used > k * (m + 1):
+                    viol.append(Violation(PROP, "products", case, dict(at0, products=used),
+                                          f"{used} column products with A for {k} columns and max_iters={m}", replay=rp))
+    return viol, n_eval, worst
+
+
+def wide_multi_jobs(wjobs):
+    by = {}
+    for j in wjobs:
+        if j["x0name"] == "0":
+            by.setdefault(j["mat"], []).append(j)
+    return [{"mat": k, "cols": v} for k, v in by.items() if len(v) >= 2]
+
+
+# ------------------------------------------------------------------ ill-conditioned numeric family
+def illcond_specs(tier, seed):
+    """(n, cond, dtype): prescribed singular values 1 .. 1/cond, random orthogonal factors; m >= n."""
+    plan = [(8, 1e4, "f64"), (20, 1e5, "f64"), (30, 1e6, "f64"), (40, 1e7, "f64"), (60, 1e6, "f64"), (60, 1e4, "f64"),
+            (12, 1e7, "f64"), (50, 1e5, "f64"),
+            (8, 1e2, "f32"), (20, 1e3, "f32"), (30, 1e3, "f32"), (60, 1e2, "f32"), (40, 1e3, "f32"), (60, 1e3, "f32")]
+    reps = 1 if tier == "quick" else 6
+    specs, i = [], 0
+    for rep in range(reps):
+        for n, cond, dt in plan:
+            i += 1
+            specs.append({"n": n, "cond": cond, "dtype": dt, "k": 2 if i % 2 else 1, "x0": "rand" if i % 3 == 0 else "0",
+                          "kind": ("svd", "sym", "tri")[i % 3], "seed": (seed * 1000003 + 104729 * i + n) % (2**31 - 1)})
+    return specs
+
+
+def make_illcond(spec):
+    rng = np.random.RandomState(spec["seed"])
+    n, cond = spec["n"], spec["cond"]
+    sv = np.logspace(0, -np.log10(cond), n)
+    U, _ = np.linalg.qr(rng.randn(n, n))
+    if spec["kind"] == "svd":
+        V, _ = np.linalg.qr(rng.randn(n, n))
+        A = (U * sv) @ V.T
+    elif spec["kind"] == "sym":
+        A = (U * (sv * np.where(np.arange(n) % 3 == 0, -1.0, 1.0))) @ U.T        # symmetric indefinite
+    else:
+        # upper triangular with a graded diagonal; the strict upper part is scaled so that cond stays of the order asked
+        A = np.diag(sv) + np.triu(rng.randn(n, n), 1) * sv[None, :] / np.sqrt(n)
+    npdt = DTYPES[spec["dtype"]][0]
+    A = A.astype(npdt)
+    B = rng.randn(n, spec["k"]).astype(npdt)
+    X0 = np.zeros_like(B) if spec["x0"] == "0" else rng.randn(n, spec["k"]).astype(npdt)
+    return A, B, X0
+
+
+def observe_illcond(spec):
+    """Returns (violations, calls, largest excess observed, cond of the matrix actually used)."""
+    A, B, X0 = make_illcond(spec)
+    npdt, tol = DTYPES[spec["dtype"]]
+    n, k = B.shape
+    A64, B64, X064 = A.astype(np.float64), B.astype(np.float64), X0.astype(np.float64)
+    cond = float(np.linalg.cond(A64))
+    eps = float(np.finfo(npdt).eps)
+    viol, n_eval, worst = [], 0, 0.0
+    R0 = B64 - A64 @ X064
+    for m, api in ((n, "gmres"), (n + 3, "inv")):
+        n_eval += 1
+        at0 = {"source": "illcond", "family": spec["kind"], "n": n, "dtype": spec["dtype"], "m": m, "api": api, "tol": tol,
+               "columns": k, "x0": spec["x0"], "regime": "padded" if m > n else "exact",
+               "cond_decade": int(round(math.log10(spec["cond"])))}
+        case = f"illcond/{spec['kind']} n={n} cond={spec['cond']:g} {spec['dtype']} k={k} x0={spec['x0']} seed={spec['seed']} m={m} {api}"
+        rp = {"illcond": spec, "m": m}
+        try:
+            b_arg, x0_arg = (B[:, 0], X0[:, 0]) if k == 1 else (B, X0)
+            if api == "inv" and k == 1:
+                x0_arg = x0_arg[:, None]
+            if spec["x0"] == "0":
+                x0_arg = None
+            X, used = call(api, A, b_arg, x0_arg, m, tol)
+        except Exception as e:  # noqa: BLE001
+            viol.append(Violation(PROP, "exception", case, dict(at0, iterate="n/a", **common.exc_info(e)),
+                                  f"{type(e).__name__}: {str(e)[:120]}", replay=rp))
+            continue
+        X = np.asarray(X, dtype=np.float64).reshape(n, k)
+        if used > k * (m + 1):
+            viol.append(Violation(PROP, "products", case, dict(at0, products=used),
+                                  f"{used} column products with A for {k} columns and max_iters={m}", replay=rp))
+        for j in range(k):
+            if not np.all(np.isfinite(X[:, j])):
+                viol.append(Violation(PROP, "nonfinite", case, dict(at0, column=j, iterate="nonfinite"), "solution contains NaN/Inf",
+                                      replay=rp))
+                continue
+            r0n = float(np.linalg.norm(R0[:, j]))
+            res = float(np.linalg.norm(B64[:, j] - A64 @ X[:, j]))
+            ratio = res / (eps * cond * r0n)
+            worst = max(worst, ratio)
+            if ratio > ILLCOND_C:
+                viol.append(Violation(PROP, "residual", case, dict(at0, column=j, iterate="other", converged=True,
+                                                                   excess=_excess_bucket(ratio)),
+                                      f"||b - A x|| = {res:.6g} with m >= n (the exact minimum is 0): {ratio:.3g} * eps*cond(A)*||r0|| "
+                                      f"(eps = {eps:.3g}, cond = {cond:.3g}, ||r0|| = {r0n:.4g}), allowed {ILLCOND_C:g}", replay=rp))
+    return viol, n_eval, worst
+
+
 # ------------------------------------------------------------------ run / replay
 ASSUMPTIONS = [
     "NumPy backend only (float64 / complex128); the harness-side backend shim (harness/shim.py: vmap) is trusted",
@@ -452,14 +731,24 @@ ASSUMPTIONS = [
 
 def build_jobs(tier):
     cases, dropped = lsqfam.gmres_cases(tier)
-    out, stats = lsqfam.run_gmres_model(PROP, cases)
+    wcases = lsqfam.gmres_wide_cases(tier)
+    out, stats = lsqfam.run_gmres_model(PROP, cases + wcases)
     jobs = []
     for c in cases:
         per_m = {str(m): out[(c["id"], m)] for m in range(0, c["n"] + 3)}
         jobs.append({"id": c["id"], "mat": c["mat"], "A": lsqfam.jmat(c["A"]), "b": lsqfam.jmat(c["b"]),
                      "x0": lsqfam.jmat(c["x0"]), "n": c["n"], "kdim": c["kdim"], "complex": c["complex"],
                      "normal": c["normal"], "x0name": c["x0name"], "per_m": per_m})
-    return jobs, cases, dropped, stats
+    wjobs = []
+    for c in wcases:
+        # the expected values are TLC's (wide integers decoded by run_gmres_model)
+        per_m = {str(m): out[(c["id"], m)]["dec"] for m in range(0, c["n"] + 3)}
+        A = lsqfam.mat_to_np(c["A"]).real
+        wjobs.append({"id": c["id"], "mat": c["mat"], "template": c["template"], "scale": c["scale"], "A": lsqfam.jmat(c["A"]),
+                      "b": lsqfam.jmat(c["b"]), "x0": lsqfam.jmat(c["x0"]), "n": c["n"], "kdim": c["kdim"],
+                      "normal": c["normal"], "x0name": c["x0name"], "cond": float(np.linalg.cond(A)),
+                      "rho2_0": lsqfam.wide_decode(out[(c["id"], 0)]["r0"]), "per_m": per_m})
+    return jobs, cases, dropped, stats, wjobs, wcases
 
 
 def multi_jobs(jobs):
@@ -483,11 +772,13 @@ def multi_jobs(jobs):
 def run(tier):
     t0 = time.time()
     phase = {}
-    jobs, cases, dropped, stats = build_jobs(tier)
+    jobs, cases, dropped, stats, wjobs, wcases = build_jobs(tier)
     phase["catalog+tlc"] = round(time.time() - t0, 1)
-    neg = lsqfam.gmres_negative_control(PROP, cases)
-    if neg != 2:
-        common.machinery_failure(PROP, f"negative controls: MC_Gmres rejected {neg} of 2 corrupted catalogs")
+    t1 = time.time()
+    neg = lsqfam.gmres_negative_control(PROP, cases, wcases)
+    if neg != 4:
+        common.machinery_failure(PROP, f"negative controls: MC_Gmres rejected {neg} of 4 corrupted catalogs")
+    phase["negative_controls"] = round(time.time() - t1, 1)
     viol, n_eval = [], 0
     t1 = time.time()
     for v, k in common.pmap(observe_case, jobs, chunksize=2):
@@ -502,33 +793,71 @@ def run(tier):
         n_multi += k
     phase["multi_column"] = round(time.time() - t1, 1)
     t1 = time.time()
-    specs = random_specs(tier, common.seed())
-    n_rand = n_skip = 0
-    for v, k, sk in _pmap_small(observe_random, [(s, tier) for s in specs]):
+    n_wide = n_wide_multi = 0
+    worst_scaled = {}
+    wm = wide_multi_jobs(wjobs)
+    for v, k, w in common.pmap(_observe_wide_any, [("single", j) for j in wjobs] + [("multi", j) for j in wm], chunksize=2):
         viol += v
-        n_rand += k
-        n_skip += sk
+        n_wide += k
+        for dt, r in w.items():
+            worst_scaled[dt] = max(worst_scaled.get(dt, 0.0), r)
+    phase["scaled_catalog_replay"] = round(time.time() - t1, 1)
+    t1 = time.time()
+    specs = random_specs(tier, common.seed())
+    ispecs = illcond_specs(tier, common.seed())
+    n_rand = n_skip = n_ill = 0
+    worst_ill = {}
+    for kind, r in _pmap_small(_observe_numeric, [("random", (s, tier)) for s in specs] + [("illcond", s) for s in ispecs]):
+        if kind == "random":
+            v, k, sk = r
+            n_rand += k
+            n_skip += sk
+        else:
+            v, k, w, dt = r
+            n_ill += k
+            worst_ill[dt] = max(worst_ill.get(dt, 0.0), w)
+        viol += v
     phase["random_systems"] = round(time.time() - t1, 1)
     regimes = {}
-    for j in jobs:
+    for j in jobs + wjobs:
         for m in range(1, j["n"] + 3):
             r = regime_of(m, j["kdim"], j["n"])
             regimes[r] = regimes.get(r, 0) + 1
     cov = {
         "states": stats["states"], "transitions": stats["transitions"],
-        "traces_validated_against_impl": len(jobs),
-        "evaluations": n_eval + n_multi + n_rand, "catalog_calls": n_eval, "multi_column_calls": n_multi,
+        "traces_validated_against_impl": len(jobs) + len(wjobs),
+        "evaluations": n_eval + n_multi + n_rand + n_wide + n_ill, "catalog_calls": n_eval, "multi_column_calls": n_multi,
         "random_system_calls": n_rand, "random_systems": len(specs), "random_columns_skipped_illconditioned": n_skip,
-        "distinct_nontrivial": sum(1 for j in jobs if j["kdim"] >= 2),
+        "scaled_catalog_calls": n_wide, "scaled_catalog_systems": len(wjobs), "scaled_multi_column_batches": len(wm),
+        "scaled_catalog_matrices": len({j["mat"] for j in wjobs}),
+        "scaled_cond_range": [min(j["cond"] for j in wjobs), max(j["cond"] for j in wjobs)] if wjobs else None,
+        "scaled_largest_excess_over_eps_cond": {k: round(v, 3) for k, v in sorted(worst_scaled.items())},
+        "scaled_allowed_excess": SCALED_C,
+        "illcond_system_calls": n_ill, "illcond_systems": len(ispecs),
+        "illcond_largest_residual_over_eps_cond": {k: round(v, 3) for k, v in sorted(worst_ill.items())},
+        "illcond_allowed": ILLCOND_C,
+        "distinct_nontrivial": sum(1 for j in jobs + wjobs if j["kdim"] >= 2),
         "rule": "one TLC state = (system, m); replayed through gmres() and inv(A, GMRES()) @ b at two tolerances; non-trivial = "
                 "Krylov dimension >= 2 (truncated iterates exist)",
-        "samples": [j["id"] for j in jobs[:: max(1, len(jobs) // 6)][:6]],
+        "samples": [j["id"] for j in jobs[:: max(1, len(jobs) // 6)][:6]] + [j["id"] for j in wjobs[:: max(1, len(wjobs) // 4)][:4]],
         "exhaustive": False, "states_by_regime": regimes, "dropped_overflow": dropped,
         "catalog_systems": len(jobs), "catalog_matrices": len({j["mat"] for j in jobs}),
         "phase_wall_s": phase, "tlc_invariants": stats["invariants"], "tlc_wall_s": stats["wall_s"], "negative_controls_rejected": neg,
         "checker_cmd": "tlc MC_Gmres.tla (spec/MC_Gmres.tla, LeastSquares.tla, Mat.tla, generated GmresCatalog.tla)",
     }
     return common.finish(PROP, tier, t0, cov, viol, ASSUMPTIONS)
+
+
+def _observe_wide_any(arg):
+    kind, job = arg
+    return observe_wide(job) if kind == "single" else observe_wide_multi(job)
+
+
+def _observe_numeric(arg):
+    kind, x = arg
+    if kind == "random":
+        return kind, observe_random(x)
+    return kind, observe_illcond(x) + (x["dtype"], )
 
 
 def _pmap_small(fn, items):
@@ -560,6 +889,17 @@ def replay(path):
         res, _ = single_run(job, r["m"], r["api"], r["tol"], r.get("x0_shape", "column"))
     elif "random" in r:
         res, _, _ = observe_random((r["random"], r.get("tier", "quick")))
+        res = [x for x in res if x.attrs.get("m") == r["m"]]
+    elif "wide_job" in r:
+        ms = {r["m"] - 1, r["m"]} if r.get("monotone") else {r["m"]}
+        res, _, _ = observe_wide(r["wide_job"], only=(r["dtype"], r["api"], ms - {0}))
+        res = [x for x in res if x.attrs.get("m") == r["m"] and (x.clause == "monotone") == bool(r.get("monotone"))]
+    elif "wide_multi" in r:
+        res, _, _ = observe_wide_multi(r["wide_multi"], only=(r["dtype"], r["api"], r["m"]))
+        if "column" in r:
+            res = [x for x in res if x.attrs.get("column") == r["column"]]
+    elif "illcond" in r:
+        res, _, _ = observe_illcond(r["illcond"])
         res = [x for x in res if x.attrs.get("m") == r["m"]]
     else:
         raise ValueError("unknown replay object")
